@@ -688,9 +688,20 @@ func handleRename(params internal.HandlerFuncParams) ([]byte, error) {
 		return nil, errors.New("no such key")
 	}
 
+	// Renaming a key to itself changes nothing.
+	if oldKey == newKey {
+		return []byte("+OK\r\n"), nil
+	}
+
+	// The expiry travels with the value.
+	oldExpireAt := params.GetExpiry(params.Context, oldKey)
+
 	// Set the new key with the old value
 	if err := params.SetValues(params.Context, map[string]interface{}{newKey: oldValue}); err != nil {
 		return nil, err
+	}
+	if oldExpireAt != params.GetExpiry(params.Context, newKey) {
+		params.SetExpiry(params.Context, newKey, oldExpireAt, false)
 	}
 
 	// Delete the old key
